@@ -12,7 +12,7 @@ from . import engine, tlc
 CLAUSE_PROPERTY = {
     "C01_Exact": "C01", "C01_OnlyAdded": "C01",
     "C03_Notes": "C03", "C03_Blame": "C03",
-    "C05_WellFormed": "C05", "C02_Carried": "C02", "C14_Stutter": "C14",
+    "C05_WellFormed": "C05", "C02_Carried": "C02", "C02_AbortNoop": "C02", "C14_Stutter": "C14",
     "C11_NothingLost": "C11", "C06_Same": "C06", "C07_TwoOutcomes": "C07", "C07_NextWorks": "C07",
     "C10_Converged": "C10", "C10_NoForeign": "C10", "C10_NeverRemoved": "C10",
     "C08_NoTranscript": "C08", "C08_Masked": "C08", "C09_Overlay": "C09", "C09_Formats": "C09", "C19_Stats": "C19",
@@ -98,7 +98,7 @@ def run_core(pid, tier, seed, plan):
         cplan.update(camp.get("plan_override", {}))
         cwd = os.path.join(wd, camp["name"])
         gres, beh = tlc.gen_behaviours(consts, os.path.join(cwd, "gen"), camp.get("invariants", []),
-                                       workers=camp.get("workers", 8), timeout=camp.get("timeout", 900),
+                                       workers=camp.get("workers", 12), timeout=camp.get("timeout", 900),
                                        simulate=camp.get("simulate"), coverage=camp.get("coverage", False),
                                        module=cplan.get("module", "MC_Core.tla"), const_keys=cplan.get("const_keys"))
         if gres["violated"]:
